@@ -21,6 +21,8 @@ GROUPS = [
     dict(name="endpointer_process", harness=H, enforce="endpointer_process", defines=GEO,
          replace=["vad_classify", "ep_push", "ep_pop", "ep_speech_count", "ep_full"], allow_no_body=NOBODY, min_postconditions=12,
          backends=[["--sat-solver", "cadical"]], timeout={"quick": 900, "thorough": 1800}),
+    dict(name="endpointer_end_stream", harness=H, enforce="endpointer_end_stream", defines=GEO + ["SSW_NO_MEM_STUBS"], loop_contracts=True, loops=["end_stream.drain"],
+         replace=["ep_linearize", "ep_pop", "ep_empty", "vad_sample_rate", "ssw_memcpy"], allow_no_body=NOBODY, min_postconditions=4, unwind=12),
 ]
 
 ENFORCED_ELSEWHERE = {}
@@ -33,8 +35,8 @@ ASSUMPTIONS = [
 ]
 HAND_LEMMAS = ["no gaps/repeats: n == pushed - dropped is an invariant and every returned frame is the oldest queued one (pop), so frames leave the queue in arrival order exactly once",
                "speech_start + frame_length == qstart_time after the triggering call, where qstart_time is the fold of frame_length over the frames dropped or returned so far: speech_start is the stream position of the first returned frame"]
-NOT_COVERED = ["endpointer_end_stream (its drain loop and trailing partial frame)", "endpointer_init float rounding of the window", "vad_classify itself"]
+NOT_COVERED = ["content of the excerpt returned by endpointer_end_stream (index level only: memcpy by bounds contract)", "endpointer_init float rounding of the window", "vad_classify itself"]
 CLAIM = dict(
-    text="The look-back ring queue and the endpointing state machine are proved against contracts: ep_push/ep_pop implement a FIFO (slot written, slot dropped only when full, written bytes equal the input frame, all other slots unchanged, pointer returned = oldest frame), ep_linearize rotates the queue to slot 0 preserving order (geometry 3 x 2), ep_speech_count reads only live memory and terminates for any queue length <= 3000 (and returns the exact count on small queues, bounded), endpointer_process pushes exactly once, pops at most once, starts only when MORE than start_frames are speech, ends once FEWER than end_frames are, returns a frame iff in speech or just left, and ties speech_start/speech_end to the queue time.",
-    note="concrete small geometry for content-level facts; VAD assumed; endpointer_end_stream not yet under contract; trusted: CBMC 6.11 (cadical back end for endpointer_process)",
+    text="The look-back ring queue and the endpointing state machine are proved against contracts: ep_push/ep_pop implement a FIFO (slot written, slot dropped only when full, written bytes equal the input frame, all other slots unchanged, pointer returned = oldest frame), ep_linearize rotates the queue to slot 0 preserving order (geometry 3 x 2), ep_speech_count reads only live memory and terminates for any queue length <= 3000 (and returns the exact count on small queues, bounded), endpointer_process pushes exactly once, pops at most once, starts only when MORE than start_frames are speech, ends once FEWER than end_frames are, returns a frame iff in speech or just left, and ties speech_start/speech_end to the queue time; endpointer_end_stream (drain loop under loop contract, termination) returns the buffer start after linearisation, reports whole queued frames plus the trailing partial frame copied INSIDE the buffer, leaves the queue empty and the endpointer out of speech.",
+    note="concrete small geometry for content-level facts; VAD assumed; trusted: CBMC 6.11 (cadical back end for endpointer_process)",
     technique="CBMC function + loop contracts (goto-instrument --dfcc), callees replaced by their contracts; ghost counters injected from annotation comments; bounded unwinding for the exact count")
